@@ -25,6 +25,8 @@ func init() {
 	families["xver"] = genXver
 	families["pool_seq"] = genPoolSeq
 	families["xver_big"] = genXverBig
+	families["reuse_pairs"] = genReusePairs
+	families["pool_big"] = genPoolBig
 }
 
 // postingsBatch builds n documents in which term "x" of field "a" occurs exactly in the
@@ -1011,5 +1013,109 @@ func genXverBig(r *rand.Rand, i int) Scenario {
 			sc.Ops = append(sc.Ops, Op{Op: "dv_visit", R: 1, N: d})
 		}
 	}
+	return sc
+}
+
+// reuse_pairs: the predecessor/successor matrix of C13, enumerated: the kind of list an object served
+// before (1-hit, general multi-chunk, general with locations, absent term, unknown field), how far its
+// iterator got (fresh, mid, drained), the kind of list it serves next, and which objects are reused
+// (the list, the iterator, both). Index i walks the matrix deterministically.
+func genReusePairs(r *rand.Rand, i int) Scenario {
+	kinds := []Pair{
+		{"a", B([]byte("z"))},      // 1-hit in the merged segment
+		{"a", B([]byte("x"))},      // general, several chunks under mode 1/2
+		{"a", B([]byte("y"))},      // general, one posting with locations
+		{"a", B([]byte("nope"))},   // absent term
+		{"nosuch", B([]byte("x"))}, // unknown field
+		{"_id", B([]byte("d1"))},   // 1-hit
+	}
+	nk := len(kinds)
+	pred, state, succ, combo := i%nk, (i/nk)%3, (i/(nk*3))%nk, (i/(nk*3*nk))%3
+	loc := []Loc{{Field: "", Pos: 1, Start: 0, End: 3}}
+	mk := func(d int, terms []TermOcc) Doc {
+		id := []byte(fmt.Sprintf("d%d", d))
+		l := 0
+		for _, t := range terms {
+			l += t.Freq
+		}
+		return Doc{{Name: "_id", Len: 1, Stored: true, Value: B(id), Terms: []TermOcc{{Term: B(id), Freq: 1, Locs: []Loc{}}}},
+			{Name: "a", Len: l, Value: Bytes{}, Terms: terms}}
+	}
+	b := Batch{
+		mk(0, []TermOcc{{Term: B([]byte("x")), Freq: 1, Locs: []Loc{}}, {Term: B([]byte("y")), Freq: 2, Locs: loc}}),
+		mk(1, []TermOcc{{Term: B([]byte("x")), Freq: 2, Locs: loc}}),
+		mk(2, []TermOcc{{Term: B([]byte("z")), Freq: 1, Locs: []Loc{}}}),
+		mk(3, []TermOcc{{Term: B([]byte("x")), Freq: 1, Locs: []Loc{}}}),
+	}
+	sc := Scenario{Name: fmt.Sprintf("reuse_pairs-%d", i), NormKind: "code", Universe: []string{"_id", "a", "nosuch"}, Batches: []Batch{b},
+		Tags: []string{"reuse_pairs"}}
+	mode := []uint32{1, 2, 0}[i%3]
+	sc.Ops = append(sc.Ops, Op{Op: "build", Seg: 1, Batch: 0, Mode: mode},
+		Op{Op: "merge", File: 1, In: []int{1}, Drops: []DropSpec{{Kind: "nil"}}, Mode: mode, Buf: 64},
+		Op{Op: "load", File: 1, Seg: 2, Backing: []string{"mem", "file"}[(i/7)%2]})
+	seg1, seg2 := 2, 2
+	if (i/5)%4 == 0 {
+		seg2 = 1 // across segments: merged predecessor, built successor
+	}
+	fl := (i / 11) % 8
+	sc.Ops = append(sc.Ops, Op{Op: "pl_open", Seg: seg1, Field: kinds[pred].Field, Term: kinds[pred].Term, Pl: 10},
+		Op{Op: "it_open", Pl: 10, It: 20, Freq: true, Norm: true, Locs: true})
+	switch state {
+	case 1:
+		sc.Ops = append(sc.Ops, Op{Op: "it_next", It: 20})
+	case 2:
+		for k := 0; k < 5; k++ {
+			sc.Ops = append(sc.Ops, Op{Op: "it_next", It: 20})
+		}
+	}
+	o := Op{Op: "pl_open", Seg: seg2, Field: kinds[succ].Field, Term: kinds[succ].Term, Pl: 11}
+	if combo != 1 {
+		o.Prealloc = 10
+	}
+	if i%2 == 0 {
+		o.Except = &DropSpec{Kind: "set", Docs: []int{1}}
+	}
+	sc.Ops = append(sc.Ops, o)
+	it := Op{Op: "it_open_last", It: 21, Freq: fl&1 != 0, Norm: fl&2 != 0, Locs: fl&4 != 0}
+	if combo != 0 {
+		it.Prealloc = 20
+	}
+	sc.Ops = append(sc.Ops, it)
+	for k := 0; k < 4; k++ {
+		sc.Ops = append(sc.Ops, Op{Op: "it_next_last"})
+	}
+	sc.Ops = append(sc.Ops, Op{Op: "it_adv_last", D: 3}, Op{Op: "pl_count", Pl: 10}, Op{Op: "pl_count", Pl: 11})
+	if combo == 1 {
+		// the predecessor list was not reused: it is still live and must be unchanged
+		sc.Ops = append(sc.Ops, Op{Op: "it_open", Pl: 10, It: 22, Freq: true, Norm: true, Locs: true},
+			Op{Op: "it_next", It: 22}, Op{Op: "it_next", It: 22}, Op{Op: "it_next", It: 22})
+	}
+	return sc
+}
+
+// pool_big: the recycled builder after a batch that needs more than one doc-value chunk (> 1024 documents),
+// then small batches: equal inputs must still give equal bytes (C14)
+func genPoolBig(r *rand.Rand, i int) Scenario {
+	big := make(Batch, 1025+r.Intn(1100))
+	for d := range big {
+		if d%97 == 0 || d > len(big)-3 {
+			big[d] = Doc{{Name: "a", Len: 1, DV: true, Value: Bytes{}, Terms: []TermOcc{{Term: B([]byte(fmt.Sprintf("t%d", d%5))), Freq: 1, Locs: []Loc{}}}}}
+		} else {
+			big[d] = Doc{}
+		}
+	}
+	cfg := defaultCfg(r)
+	cfg.DvNames = map[string]bool{"a": true, "b": true}
+	cfg.Fields = []string{"a", "b"}
+	seq := 0
+	small1 := genBatch(r, &cfg, &seq)
+	small2 := genBatch(r, &cfg, &seq)
+	sc := Scenario{Name: fmt.Sprintf("pool_big-%d", i), NormKind: "code", Universe: []string{"_id", "a", "b"}, Batches: []Batch{big, small1, small2},
+		Tags: []string{"pool_big"}}
+	sc.Ops = append(sc.Ops,
+		Op{Op: "build", Seg: 1, Batch: 1, Mode: 0, Cold: true}, Op{Op: "build", Seg: 2, Batch: 2, Mode: 0, Cold: true},
+		Op{Op: "build", Seg: 3, Batch: 0, Mode: 0, Cold: true},
+		Op{Op: "build", Seg: 4, Batch: 1, Mode: 0}, Op{Op: "build", Seg: 5, Batch: 2, Mode: 0},
+		Op{Op: "build", Seg: 6, Batch: 0, Mode: 0}, Op{Op: "build", Seg: 7, Batch: 1, Mode: 0})
 	return sc
 }
